@@ -259,6 +259,9 @@ FAMILY = [
     ('p', (('_', 0), V('Y')), ('or', ('call', 'q', V('Y'), V('N')), ('and', ('not', ('call', 'r', V('M'))), ('fail',)))),
     ('p', (V('X'), V('X')), ('and', ('cut',), ('fail',))),            # 10: a neck cut that is only reached when the arguments unify
     ('p', (V('X'), A('a')), ('and', ('cut',), ('call', 'q', V('X')))),   # 11
+    # 12: terms that print alike but are different terms (an atom spelled like a compound term, a number, a list, a variable)
+    ('p', (A('f(a)'), ('f', 'f', A('a')), A('1'), ('n', '1'), A('[]'), ('l',), A('x1')),
+     ('and', ('call', 'q', ('f', 'f', A('a')), A('f(a)'), ('_', 0)), ('call', 'r', ('n', '1'), A('1'), ('l',), A('[]'), A('g(X)'), ('f', 'g', V('X'))))),
 ]
 
 
@@ -437,6 +440,7 @@ PROGRAMS = [
     [(('p', 0), [5, 5]), (('p', 2), [8, 9, 8])],
     [(('p', 6), [4, 4]), (('p', 3), [2])],
     [(('p', 2), [10, 0, 11, 1])],
+    [(('p', 7), [12, 12])],
 ]
 
 
@@ -539,3 +543,98 @@ def rule_calls_late_bound(cm, rep, rid):
                               'bound when the script is compiled or loaded, not when it is made - later loads, registrations and '
                               'dynamic facts for that predicate are not seen' % (fn, ', '.join(lab.kind(x) or repr(x) for x in args)), f.loc())
     rep.minimum('goal and unification loops in the sample program', n, 6)
+
+
+# ---------------------------------------------------------------------------------------------
+# the visitor's grouping of clauses
+
+
+class _Ctx:
+    """stand-in for the ANTLR context of a program: clauseordirective() gives the child contexts in source order"""
+
+    def __init__(self, children):
+        self.children = children
+
+    def __repr__(self):
+        return 'ctx'
+
+
+def rule_program_grouping(cm, rep, rid):
+    rep.rule(rid, 'visitProgram, evaluated by the checker on a sample sequence of clauses (two predicates whose clauses are '
+                  'interleaved, one name with two arities), returns a dictionary in which every clause occurs exactly once, under '
+                  '(head name, number of head arguments), the clauses of a key in source order and the keys in order of first '
+                  'occurrence - nothing is dropped, merged or reordered when the clauses of a predicate are not adjacent')
+    lab = ClauseLab(cm)
+    vis = cm.repo.cls('yp_prolog_visitor', 'YPPrologVisitor')
+    vp = cm.repo.lookup_method(vis, 'visitProgram')
+    if vp is None:
+        raise AnalysisError('anchor vanished: YPPrologVisitor.visitProgram')
+    sample = [('colour', (A('red'),), ('true',)), ('colour', (A('green'),), ('true',)), ('shape', (A('square'),), ('true',)),
+              ('colour', (A('blue'),), ('true',)), ('colour', (A('a'), A('b')), ('true',)), ('shape', (V('X'),), ('call', 'q', V('X'))),
+              ('colour', (A('last'),), ('true',))]
+    clauses = [lab.clause(c) for c in sample]
+    kids = [Sym('child%d' % i) for i in range(len(sample))]
+    ctx = _Ctx(kids)
+
+    class SX(SymEx):
+        def attr(self, b, name, st, func, node):
+            if isinstance(b, _Ctx):
+                return ('ctxcall', name)
+            return SymEx.attr(self, b, name, st, func, node)
+
+        def apply(self, e, f, args, kw, st, func):
+            if isinstance(f, tuple) and f[0] == 'ctxcall':
+                if f[1] == 'clauseordirective':
+                    if not args:
+                        return [(st, ListV(list(kids)))]
+                    if isinstance(args[0], Const) and isinstance(args[0].v, int) and 0 <= args[0].v < len(kids):
+                        return [(st, kids[args[0].v])]
+                return [(st, CallV(f[1], args, node=e))]
+            if isinstance(f, tuple) and f[0] == 'bound' and f[1].name in ('visitClauseordirective', 'visitClause', 'visit') and args and \
+                    isinstance(args[0], Sym) and args[0] in kids:
+                return [(st, clauses[kids.index(args[0])])]
+            return SymEx.apply(self, e, f, args, kw, st, func)
+    mods = ('yp_generator', 'yp_prolog_visitor')
+    sx = SX(cm.repo, inline=lambda f: f.module.name in mods and f.name != '_debug', opaque=lambda n: False, max_depth=1000)
+    st = PathState()
+    outs = sx.run(vp, [ctx], st)
+    key = 'visitProgram:sample of %d clauses' % len(sample)
+    ok_outs = [(s, v) for s, v in outs if not (isinstance(v, CallV) and v.name == 'raise')]
+    if len(ok_outs) != 1 or not isinstance(ok_outs[0][1], DictV):
+        raise AnalysisError('visitProgram does not evaluate to one dictionary on the sample program (%d outcomes: %s)' % (
+            len(outs), ', '.join(repr(v)[:60] for _, v in outs[:3])))
+    d = ok_outs[0][1]
+    want = {}
+    for i, c in enumerate(sample):
+        want.setdefault((c[0], len(c[1])), []).append(i)
+    got = {}
+    problems = []
+    for k, v in d.pairs:
+        kk = None
+        seq = sx.as_sequence(k)
+        if seq is not None and len(seq) == 2 and isinstance(seq[0], Const) and isinstance(seq[1], Const):
+            kk = (seq[0].v, seq[1].v)
+        items = sx.as_sequence(v)
+        if kk is None or items is None:
+            problems.append('an entry of the program dictionary is %r: %r' % (k, v))
+            continue
+        got[kk] = [next((i for i, c in enumerate(clauses) if c is x), None) for x in items]
+    for k, idx in want.items():
+        if k not in got:
+            problems.append('no entry for %s/%d' % k)
+        elif got[k] != idx:
+            lost = [i for i in idx if i not in got[k]]
+            if lost:
+                problems.append('%s/%d loses clause(s) %s of the source (%s): a predicate whose clauses are not adjacent keeps only part of them' % (
+                    k[0], k[1], ', '.join(str(i + 1) for i in lost), '; '.join(show(sample[i]) for i in lost)))
+            else:
+                problems.append('%s/%d holds its clauses in the order %s instead of source order %s' % (k[0], k[1], [i + 1 for i in got[k]], [i + 1 for i in idx]))
+    for k in got:
+        if k not in want:
+            problems.append('an entry %r that no clause head has' % (k,))
+    if not problems and list(got) != list(want):
+        problems.append('the keys come in the order %s, not in order of first occurrence %s' % (list(got), list(want)))
+    if problems:
+        rep.violation(rid, key, '; '.join(problems[:3]), vp.loc())
+    else:
+        rep.ok(rid, key, '%d keys, every clause once, in source order' % len(got), vp.loc())
